@@ -734,7 +734,12 @@ def seq_equals(s1: Union["ISeq", ISequential], s2: Any) -> bool:
     for e1, e2 in itertools.zip_longest(s1, s2, fillvalue=sentinel):  # type: ignore[arg-type]
         if bool(e1 is sentinel) or bool(e2 is sentinel):
             return False
-        if e1 != e2:
+        # As with `basilisp.lang.runtime.equals`, booleans and None are only equal
+        # to themselves (in Python, True == 1 and False == 0)
+        if isinstance(e1, (bool, type(None))) or isinstance(e2, (bool, type(None))):
+            if e1 is not e2:
+                return False
+        elif e1 != e2:
             return False
     return True
 
